@@ -140,12 +140,16 @@ def schemeLike : Bytes → Bool
 /-- A reference printed without scheme and host that no client reads as naming another host:
     it does not begin with two slashes, nor with a backslash in either of the first two positions
     (browsers treat `\` as `/`), and if it is not path-absolute it cannot be taken for `scheme:`. -/
-def safeRef : Bytes → Bool
-  | '/' :: '/' :: _ => false
-  | '/' :: '\\' :: _ => false
-  | '\\' :: _ => false
-  | '/' :: _ => true
-  | l => !schemeLike l
+def safeRef (l : Bytes) : Bool :=
+  match l with
+  | [] => true
+  | c :: rest =>
+    if c = '\\' then false
+    else if c = '/' then
+      match rest with
+      | [] => true
+      | d :: _ => !(d == '/' || d == '\\')
+    else !schemeLike l
 
 /-- no byte that clients strip or rewrite before resolving (controls, space, DEL, backslash) -/
 def cleanPath (p : Bytes) : Bool := p.all fun c => decide (c.toNat > 32) && c != '\\' && c.toNat != 127
@@ -155,22 +159,35 @@ def cleanPath (p : Bytes) : Bool := p.all fun c => decide (c.toNat > 32) && c !=
 def moduloSlash (path p : Bytes) : Bool :=
   p == path ++ ['/'] || p ++ ['/'] == path
 
+/-- what follows the printed `scheme://host` (if any) starts a path or a query, so it cannot extend
+    the host; without scheme and host the whole reference must be safe -/
+def startOK (pre rest : Bytes) : Bool :=
+  if pre = [] then safeRef rest
+  else match rest with
+    | [] => true
+    | c :: _ => c == '/' || c == '?'
+
+/-- the path part percent-decodes to the request path with the final slash added or removed -/
+def decodesTo (path pp : Bytes) : Bool :=
+  match pctDecode pp with
+  | some p => moduloSlash path p || (['.', '/'].isPrefixOf p && moduloSlash path (p.drop 2))
+  | none => false
+
+/-- a `Location` value is acceptable for this request -/
+def locOK (r : Req) (loc : Bytes) : Bool :=
+  r.pre.isPrefixOf loc &&
+  startOK r.pre (loc.drop r.pre.length) &&
+  cleanPath (pathPart (loc.drop r.pre.length)) &&
+  decodesTo r.path (pathPart (loc.drop r.pre.length))
+
+/-- * a redirect (308 with a `Location`) goes only to the request's own path with the final slash
+      added or removed (compared after percent-decoding), the handler does not run,
+    * and the `Location` is either a reference without scheme and host that no client can read as
+      naming another host, or the request's own `scheme://host` followed by a path. -/
 def specOK (r : Req) (o : Obs) : Bool :=
   match o.loc with
   | none => o.status != 308
-  | some loc =>
-    o.status == 308 && !o.ran &&
-    r.pre.isPrefixOf loc &&
-    (let rest := loc.drop r.pre.length
-     let pp := pathPart rest
-     (if r.pre = [] then safeRef rest
-      else match rest with
-        | [] => true
-        | c :: _ => c == '/' || c == '?')
-     && cleanPath pp
-     && (match pctDecode pp with
-         | some p => moduloSlash r.path p || ("./".toList.isPrefixOf p && moduloSlash r.path (p.drop 2))
-         | none => false))
+  | some loc => o.status == 308 && !o.ran && locOK r loc
 
 end Slash
 
